@@ -1175,7 +1175,13 @@ pub fn run_history(specs: Specs, names: &[String], ops: &[Op], mon: &Monitors) -
         tags: BTreeSet::new(),
         arcs: std::collections::HashMap::new(),
     };
+    let probe_phase = names.iter().map(|n| n.len()).sum::<usize>() + ops.len();
     for (i, op) in ops.iter().enumerate() {
+        if (i + probe_phase) % 3 == 0 && i > 0 && lock.g.number_of_nodes() <= 12 {
+            // read-only calls between mutations; whatever they compute must not leak into the
+            // answers given after the next mutation (a panic here is C20's business)
+            let _ = ctx::guard("probe", || crate::gen::warm_up(&lock.g));
+        }
         if !step(&mut lock, op, mon, i) {
             break;
         }
